@@ -212,13 +212,23 @@ FAIL_OPS = [
 ]
 
 
+def modfail_source(u):
+    return ("""var detail = [%d, ("plugin", [%d])];
+var table = {"k": [%d]};
+#[constructor(new)] class PlugErr { fn why(self) { return (detail, table.get("k")); } }
+fn helper() { return [detail, %d]; }
+var hook = helper;
+throw PlugErr.new();
+""" % (u, u, u, u))
+
+
 def gen_ir(seed):
     rng = Rng(seed)
     n = rng.range(3, 9)
     gadgets = []
     nranges = 0
     for gi in range(n):
-        kind = rng.weighted([(60, "chain"), (25, "op"), (15, "failop")])
+        kind = rng.weighted([(58, "chain"), (24, "op"), (14, "failop"), (4, "modfail")])
         u = 1000 + gi * 10
         if kind == "chain":
             target = rng.choice(sorted(TARGETS))
@@ -237,6 +247,8 @@ def gen_ir(seed):
                 hashable = hashable if hh is None else hh
             root = rng.choice(GEN_ROOTS)
             gadgets.append(["chain", root, edges, target, u, rng.range(0, 6)])
+        elif kind == "modfail":
+            gadgets.append(["modfail", u, rng.range(0, 4)])
         elif kind == "op":
             gadgets.append(["op", rng.below(len(OPS)), u, rng.choice(["global", "fn", "fiber"])])
         else:
@@ -266,6 +278,15 @@ def render_gadget(g, gi):
                                      Pg=wrap_probe(unwrap, tprobe, "l%d" % gid),
                                      Pdirect=wrap_probe(unwrap, tprobe, x)))
         return lines
+    if kind == "modfail":
+        _, u, n = g
+        # what escapes from a module whose top-level code failed (the thrown instance -> its class -> methods -> the module's
+        # globals) must stay intact: the importer caught the failure and still holds the instance
+        return ["var caught%d = nil;" % gid,
+                'try { import "gcfail%d"; } catch e { caught%d = e; }' % (u, gid),
+                "churn(%d);" % n,
+                'print(("ev", %d, caught%d.why(), type(caught%d) == PlugErr%d));' % (gid, gid, gid, gid) if False else
+                'print(("ev", %d, caught%d.why()));' % (gid, gid)]
     if kind == "op":
         _, oi, u, where = g
         expr = OPS[oi].format(u=u)
@@ -371,8 +392,11 @@ class C01:
             src = render(ir)
         except (ValueError, KeyError, IndexError) as e:
             return {"stats": stats, "nontrivial": False, "invalid": str(e)}
-        sc = dict(sc, programs=programs(ir), tape=[], faults={},
-                  fs={"gcm": {"source": GCM, "reads": []}})
+        fs = {"gcm": {"source": GCM, "reads": []}}
+        for g_ in ir["gadgets"]:
+            if g_[0] == "modfail":
+                fs["gcfail%d" % g_[1]] = {"source": modfail_source(g_[1]), "reads": []}
+        sc = dict(sc, programs=programs(ir), tape=[], faults={}, fs=fs)
         stats.inc("scenarios")
         for g in ir["gadgets"]:
             stats.inc("gadget:" + g[0])
